@@ -226,6 +226,41 @@ def extract():
     if len(x["prelude"]) != 3:
         raise ExtractError(f"run_managed_hook prelude changed: {x['prelude']}")
 
+    # --- the post-checkout fallback for rebases with nothing to replay: the `if` that guards the first
+    #     force_restore_rebase_hooks of the arm — is it limited to `pull --rebase`?
+    pc = dict(arms).get('"post-checkout"')
+    if pc is None:
+        raise ExtractError("run_managed_hook: no post-checkout arm")
+    gm = None
+    for m in re.finditer(r"\bif\s+((?:[^{};]|\n)*?pull_rebase_todo_is_empty\(&repo\)(?:[^{};]|\n)*?)\{", pc):
+        gm = m
+        break
+    if gm is None:
+        raise ExtractError("post-checkout arm: the empty-todo fallback has an unexpected shape")
+    blk = pc[gm.end() - 1: match_brace(pc, gm.end() - 1) + 1]
+    cond = re.sub(r"\s+", " ", gm.group(1)).strip()
+    conj = sorted(c.strip() for c in cond.split("&&"))
+    base = sorted(['repo.path().join("rebase-merge").is_dir()', "pull_rebase_todo_is_empty(&repo)"])
+    if conj == base:
+        x["noop_restore_pull_only"] = False
+    elif conj == sorted(base + ["is_pull_reflog_action()"]):
+        x["noop_restore_pull_only"] = True
+    else:
+        raise ExtractError(f"post-checkout arm: empty-todo fallback guarded by {cond!r}")
+    x["noop_restore_forces"] = bool(re.search(r"\bforce_restore_rebase_hooks\(&repo\)", blk)) and \
+        bool(re.search(r"\bmaybe_handle_pull_post_rewrite\(&mut repo\)", blk))
+
+    # --- the checkpoint entry point (checkpoint.rs / git_ai_handlers.rs call it before every checkpoint)
+    ce = fn_body(hh, "ensure_repo_level_hooks_for_checkpoint")
+    x["checkpoint_entry"] = re.findall(r"\b([a-z_0-9]+)\s*\(\s*repo\s*\)", ce)
+    cp_src = read("commands/checkpoint.rs")
+    run_body = fn_body(cp_src, "run")
+    if "ensure_repo_level_hooks_for_checkpoint(repo)" not in re.sub(r"\s+", "", run_body).replace("crate::commands::git_hook_handlers::", ""):
+        raise ExtractError("checkpoint::run no longer calls ensure_repo_level_hooks_for_checkpoint")
+    ms = fn_body(hh, "maybe_restore_stale_rebase_hooks")
+    if not re.search(r"if\s+!is_rebase_in_progress\(repo\)\s*\{\s*restore_rebase_hooks_for_repo\(repo,\s*true\);\s*\}", ms):
+        raise ExtractError("maybe_restore_stale_rebase_hooks: unexpected shape")
+
     # --- handle_git_hook_invocation: the skip logic
     hg = fn_body(hh, "handle_git_hook_invocation")
     p_all = re.search(r'if\s+std::env::var\(ENV_SKIP_ALL_HOOKS\)\.as_deref\(\)\s*==\s*Ok\("1"\)\s*\{\s*return\s+0;\s*\}', hg)
@@ -401,6 +436,12 @@ def render(x):
     L.append("/-- `resolve_child_git_hooks_path_override`: for commands in `commandUsesManagedHooks` of a repository with hook\n"
              "    state the child gets `-c core.hooksPath=<previous hooks dir | null device>` -/")
     L.append(f"def childHooksPathOverrideForManagedCommands : Bool := {str(x['override_shape']).lower()}")
+    L.append("/-- post-checkout arm: the fallback that restores the masked entry points when the rebase todo is empty is\n"
+             "    limited to `pull --rebase` / calls maybe_handle_pull_post_rewrite and force_restore_rebase_hooks -/")
+    L.append(f"def noopRestorePullOnly : Bool := {str(x['noop_restore_pull_only']).lower()}")
+    L.append(f"def noopRestoreForces : Bool := {str(x['noop_restore_forces']).lower()}")
+    L.append("/-- `ensure_repo_level_hooks_for_checkpoint` (run by `checkpoint::run`): the functions it calls on the repository -/")
+    L.append(f"def checkpointEntryCalls : List Name := {ll(x['checkpoint_entry'])}")
     L.append("/-- side-state files of the managed hooks -/")
     L.append(f"def sideStateFiles : List Name := {ll(x['side_files'])}")
     L.append("\nend GitAi.Extracted.HookTables\n")
@@ -420,6 +461,7 @@ if __name__ == "__main__":
         print(f"EXTRACT-ERROR: {e}")
         sys.exit(1)
     for k in ("managed", "terminal", "uses_managed", "pre", "post", "dispatch", "handled", "kinds", "env_managed", "env_legacy",
-              "env_all", "spawn_sites", "spawn_sites_with_env", "side_files", "prelude"):
+              "env_all", "spawn_sites", "spawn_sites_with_env", "side_files", "prelude", "noop_restore_pull_only", "noop_restore_forces",
+              "checkpoint_entry"):
         print(k, "=", x[k])
     print("written" if changed else "unchanged", OUT)
